@@ -1,7 +1,11 @@
 import SqlObjVerif.Model.SliceX
+import SqlObjVerif.Model.SelHeap
 import SqlObjVerif.Model.DrvUtil
 /-! Driver for C10 (runs the TRANSLATED `__getitem__`: `stepSelX` / `finishX`).  Request: `<dialect> <n> <a:b>* [i=<int>]` with `-` for an omitted bound.
-    Answer: `<result> | <window clause tokens of the final select, or "list">`. -/
+    Answer: `<result> | <window clause tokens of the final select, or "list">`.
+    Session request: `S <dialect> <n> <i>:<a>:<b>*` (statement k: `v_k = v_i[a:b]`, v_0 = the unsliced select), run
+    by `runC` = the translated `__getitem__` + `clone` + `__init__` on a heap; answer: the rows of every variable,
+    read after the whole session, separated by ` ; `. -/
 open SqlObjVerif SqlObjVerif.Slice SqlObjVerif.DrvUtil
 
 def dialect? : String → Option Dialect
@@ -52,4 +56,33 @@ def handle (line : String) : String :=
     | _, _ => "bad-op"
   | _ => "bad-op"
 
-def main : IO Unit := loopPure handle
+def parseSOp (s : String) : Option SOp :=
+  match s.splitOn ":" with
+  | [i, a, b] => match i.toNat?, optInt? a, optInt? b with
+    | some i, some a, some b => some (i, a, b)
+    | _, _, _ => none
+  | _ => none
+
+def sessOrc : SqlObjVerif.PyOps.Orc := { val := fun n => .obj n, cond := fun _ => false, truthy := fun _ => true }
+
+def handleSession (rest : List String) : String :=
+  match rest with
+  | d :: n :: ops =>
+    match dialect? d, n.toNat? with
+    | some d, some n =>
+      let ops := ops.map parseSOp
+      if ops.any Option.isNone then "bad-op" else
+      let xs := List.range n
+      let st := runC sessOrc d xs (ops.filterMap id)
+      " ; ".intercalate (st.vals.map fun v => match rowsOfC d xs st.heap v with
+        | some l => "rows" ++ String.join (l.map fun x => " " ++ toString x)
+        | none => "error")
+    | _, _ => "bad-op"
+  | _ => "bad-op"
+
+def handleAny (line : String) : String :=
+  match words line with
+  | "S" :: rest => handleSession rest
+  | _ => handle line
+
+def main : IO Unit := loopPure handleAny
